@@ -137,8 +137,8 @@ def _judge(args):
     tool = cfg["tool"]
     kind = case_kind(case)
     exp_log = tm.noneify(case["log"], cfg["par"].get("dflt") == "none") if tool in tm.NONE_TOOLS else case["log"]
-    if tool in tm.NONE_POS_TOOLS and cfg["data"] and len(cfg["data"][0]) >= 2:
-        exp_log = tm.none_at(exp_log)
+    if tool in tm.NONE_POS_TOOLS and cfg["data"] and len(cfg["data"][0]) >= 1:
+        exp_log = tm.none_at(exp_log, p=tm.none_p(len(cfg["data"][0])))
     if cfg["par"].get("inone"):      # reduce(..., initial=None): the expected log with the initial object spelled None
         exp_log = tm.noneify_nodes(case["log"], ("initial",))
     out = {"viol": [], "mach": [], "n": {}}
@@ -203,6 +203,10 @@ def _judge(args):
         flavours.append({"src": "clstruthy", "call": "asyncdef"})
         if case["log"][-1]["ev"] == "call":
             flavours.append({"src": "list", "call": "asyncdef"})     # a failing callable over a plain (sized) list
+    if "C04" in want or ("C01" in want and kind == "full" and not is_agg and tool != "iter"):
+        # iterators that are falsy and equal to one another: iterated, told apart and closed like any others
+        if not any(f["src"] == "clstruthy" for f in flavours):
+            flavours.append({"src": "clstruthy", "call": "asyncdef"})
     if "C01" in want and kind == "full" and not is_agg and tool != "iter" and not cfg["par"].get("alias"):
         flavours.append({"src": "list", "call": "asyncdef"})    # plain lists, edited by the caller once a tool is through with them
         if any(e["ev"] == "call" for e in case["log"]):
@@ -228,11 +232,11 @@ def _judge(args):
             canonical = fl["src"] == "cls" and fk == "exc"
             obs_log = o.log
             # C01: items and ending at full consumption
-            if "C01" in want and (canonical or fl["src"] == "list") and fk == "exc" and kind == "full" and not is_agg:
+            if "C01" in want and (canonical or fl["src"] in ("list", "clstruthy")) and fk == "exc" and kind == "full" and not is_agg:
                 ey, oy = tm.yields(exp_log), tm.yields(obs_log)
                 cls = tm.items_diff_class(ey, oy)
                 if cls:
-                    viol("C01", cls + ("+list-input" if fl["src"] == "list" else ""), {"projection": "yields", "expected": ey, "observed": oy, "input": fl["src"]})
+                    viol("C01", cls + ("+list-input" if fl["src"] == "list" else "+falsy-iterators" if fl["src"] == "clstruthy" else ""), {"projection": "yields", "expected": ey, "observed": oy, "input": fl["src"]})
                 ee, oe = tm.ending(exp_log), tm.ending(obs_log)
                 if ee != oe:
                     viol("C01", f"ending-{'-'.join(map(str, oe))}-instead-of-{'-'.join(map(str, ee))}",
@@ -464,8 +468,9 @@ def record_random(args):
     L = tm.load_lib()
     o = tm.execute(case, L, susp=rnd.choice([0, 1]))
     log = tm.lazy_projection(o.log) + ([{"ev": "close"}] if o.ending == "close" else [])
-    if case["cfg"]["tool"] in tm.NONE_POS_TOOLS and case["cfg"]["data"] and len(case["cfg"]["data"][0]) >= 2:
-        log = tm.none_back(log, case["cfg"]["data"][0][1])
+    if case["cfg"]["tool"] in tm.NONE_POS_TOOLS and case["cfg"]["data"] and len(case["cfg"]["data"][0]) >= 1:
+        np_ = tm.none_p(len(case["cfg"]["data"][0]))
+        log = tm.none_back(log, case["cfg"]["data"][0][np_ - 1], p=np_)
     if case["cfg"]["tool"] in tm.NONE_TOOLS:     # None items back to what the spec calls them
         from itertools import count  # noqa: PLC0415
         ctr = {}
